@@ -363,7 +363,7 @@ pub fn label_programs() -> Vec<String> {
         "MOV R0, X", "MOV (X), R0", "MOV (X), X", "CMP (X), (X)", "BITT R0, X", "BITS (X), 1", "BITC (X), X",
     ];
     for r in refs {
-        for (def, name) in [("X:", "X"), ("x:", "X"), ("X:", "x"), (".EQU X 3", "X"), (".EQU x 3", "X"), ("", "X"), ("Y:", "X"), ("Xx:", "X"), ("X:", "Xx")] {
+        for (def, name) in [("X:", "X"), ("x:", "X"), ("X:", "x"), (".EQU X 3", "X"), (".EQU x 3", "X"), (".EQU X 3", "x"), (".EQU Xy 3", "xY"), ("Xy:", "xY"), ("xY:\n.EQU Xy 4", "XY"), ("", "X"), ("Y:", "X"), ("Xx:", "X"), ("X:", "Xx")] {
             let line = r.replace('X', name);
             out.push(format!("{}{}\n {}\n", HDR, def, line));
             out.push(format!("{} {}\n{}\n", HDR, line, def));
